@@ -247,7 +247,7 @@ def _rails(rng):
 
 def seq_cases(tier, seed):
     rng = random.Random(1500 + seed)
-    rounds = 1 if tier == "quick" else 10
+    rounds = 1 if tier == "quick" else 8
     max_per_set = 6 if tier == "quick" else 20
     gi = 0
     for rnd in range(rounds):
@@ -304,7 +304,7 @@ def _round_robin(counts, rev):
 
 def conc_cases(tier, seed):
     rng = random.Random(2500 + seed)
-    rounds = 1 if tier == "quick" else 8
+    rounds = 1 if tier == "quick" else 6
     max_sched = 12 if tier == "quick" else 40
     gi = 0
     shapes = [
@@ -314,6 +314,7 @@ def conc_cases(tier, seed):
         ("general", 3, 1, 0, 0),
         ("passthrough", 2, 1, 1, 0),
         ("passthrough", 2, 2, 0, 0),
+        ("passthrough", 2, 2, 1, 0),  # a suspension (gated rail) between the request's set-up and its first LLM call, with history
         ("single_call", 2, 1, 0, 0),
         ("single_call", 3, 1, 0, 0),
         ("dialog", 2, 1, 0, 0),
@@ -1053,6 +1054,24 @@ def _residue_only(ob, cf, asked):
     extra = {p: x for p, x in mk.items() if p not in cmk or (cmk[p] != x and x is None)}
     rest_same = {p: x for p, x in mk.items() if p not in extra} == {p: x for p, x in cmk.items() if p not in extra}
     return bool(extra) and all(x is None for x in extra.values()) and set(extra) <= asked and rest_same and all(ob.get(f) == cf.get(f) for f in ("temperature", "max_tokens"))
+
+
+def finalize(tier, seed, observed, counts):
+    """cross-case obligations: a run in which a workload went blind must not pass"""
+    n = sum(counts.values())
+    cov = {
+        "sequential_cases": observed.get("wl_seq", 0),
+        "concurrent_cases": observed.get("wl_conc", 0),
+        "max_calls_in_flight": observed.get("max_calls_in_flight", 0),
+        "cases_whose_texts_collide_under_the_role_free_join": observed.get("cases_with_join_collision", 0),
+        "fresh_instance_probes": observed.get("cold_probes", 0),
+    }
+    if n < 100:  # --limit / replay-sized runs
+        return {"coverage": cov}
+    missing = [k for k, v in cov.items() if not v]
+    if cov["max_calls_in_flight"] < 2:
+        missing.append("no schedule with >=2 calls in flight")
+    return {"coverage": cov, "inconclusive": ("workload blind: " + ", ".join(missing)) if missing else None}
 
 
 def classify(r):
